@@ -387,7 +387,14 @@ func c01Wrappers(c *Ctx) error {
 			}
 		}
 		kind := otKinds[i%3]
-		res := runSession(circ, bitsToBig(x[:n0]), bitsToBig(x[n0:]), &blockLog{r: r.Fork(), skipKey: true},
+		gIn, eIn := bitsToBig(x[:n0]), bitsToBig(x[n0:])
+		if i%2 == 1 {
+			// the same bit patterns handed over as NEGATIVE big.Ints (what IOArg.Parse returns for
+			// "-5" on an intN argument): the wrappers must read two's complement bits
+			gIn, eIn = negRep(gIn, n0), negRep(eIn, n1)
+			c.Hist("wrapper:inputs-as-negative-big-ints")
+		}
+		res := runSession(circ, gIn, eIn, &blockLog{r: r.Fork(), skipKey: true},
 			kind.mk(r.Fork()), kind.mk(r.Fork()), 0, r.Fork(), nil, 60*time.Second)
 		want := TruthEval(circ, x)
 		var wantArgs []*big.Int
